@@ -1,1 +1,261 @@
-(* C13_Props.v — in progress *)
+(* C13_Props.v — the property theorems of C13 and nothing else.
+   Each is closed by `exact <lemma>` and followed by Print Assumptions. *)
+From V Require Import C13_Consts C13_Model C13_Spec C13_Proofs.
+Open Scope N_scope.
+
+(* ---------------- (1) acceptance ---------------- *)
+
+(* PercentEncodeMessage never fails on bytes; the grpc-message scanner is silent on its output
+   and url.PathUnescape gives the message back — for every message *)
+Theorem percent_scan_ok : forall m, Forall is_byte m ->
+  exists e, percent_encode m = Done e /\ scan_msg e 0 = [] /\ percent_decode e = Some m.
+Proof. exact percent_scan_ok_proof. Qed.
+Print Assumptions percent_scan_ok.
+
+(* the same for the grpc-message value the reference server writes (outer spaces as %20) *)
+Theorem trailer_message_scan_ok : forall m, Forall is_byte m ->
+  exists e, trailer_message m = Done e /\ scan_msg e 0 = [] /\ percent_decode e = Some m.
+Proof. exact trailer_message_scan_ok_proof. Qed.
+Print Assumptions trailer_message_scan_ok.
+
+(* gRPC: for all 16 codes, every message, every detail list, the status trailers the reference
+   server emits are examined without feedback *)
+Theorem grpc_clean : forall marshal unmarshal code msg details,
+  proto_roundtrip marshal unmarshal -> 1 <= code <= 16 -> Forall is_byte msg ->
+  exists st, grpc_status_trailers marshal code msg details = Done st /\
+             check_grpc_status unmarshal (to_map st) = Done [].
+Proof. exact grpc_clean_proof. Qed.
+Print Assumptions grpc_clean.
+
+(* gRPC-Web: ... and so is the end-of-stream trailer block, with any well-formed metadata *)
+Theorem grpc_web_clean : forall marshal unmarshal code msg details trailers,
+  proto_roundtrip marshal unmarshal -> 1 <= code <= 16 -> Forall is_byte msg -> wf_meta trailers ->
+  exists blk parsed,
+    grpc_web_end_stream marshal code msg details trailers = Done blk /\
+    examine_grpc_end_stream blk = Done ([], parsed) /\
+    check_grpc_status unmarshal parsed = Done [].
+Proof. exact grpc_web_clean_proof. Qed.
+Print Assumptions grpc_web_clean.
+
+(* Connect: a conformant error body (any of the 16 code names, any message, any details) is silent *)
+Theorem connect_error_clean : forall name msg details,
+  In name c13_code_names ->
+  Forall (fun d => fullname_valid (fst d) = true /\ Forall is_byte (snd d)) details ->
+  examine_connect_error (Some (render_connect_error name msg details)) = [].
+Proof. exact connect_error_clean_proof. Qed.
+Print Assumptions connect_error_clean.
+
+(* the scanner is silent exactly on well-formed percent-encodings *)
+Theorem scan_iff : forall s, scan_msg s 0 = [] <-> pct_wf s.
+Proof. exact scan_iff_proof. Qed.
+Print Assumptions scan_iff.
+
+(* ---------------- (2) rejection: one theorem per malformation class ---------------- *)
+Theorem flags_missing_status : forall unmarshal h, hget h k_status = [] ->
+  exists fbs, check_grpc_status unmarshal h = Done fbs /\ In StMissing fbs.
+Proof. exact flags_missing_status_proof. Qed.
+Print Assumptions flags_missing_status.
+
+Theorem flags_multiple_status : forall unmarshal h a b tl, hget h k_status = a :: b :: tl ->
+  exists fbs, check_grpc_status unmarshal h = Done fbs /\ In StMulti fbs.
+Proof. exact flags_multiple_status_proof. Qed.
+Print Assumptions flags_multiple_status.
+
+Theorem flags_unparsable_status : forall unmarshal h s, hget h k_status = [s] -> atoi s = None ->
+  exists fbs, check_grpc_status unmarshal h = Done fbs /\ In StParse fbs.
+Proof. exact flags_unparsable_status_proof. Qed.
+Print Assumptions flags_unparsable_status.
+
+Theorem flags_status_out_of_range : forall unmarshal h s c, hget h k_status = [s] -> atoi s = Some c ->
+  (c < 0 \/ 16 < c)%Z ->
+  exists fbs, check_grpc_status unmarshal h = Done fbs /\ In StRange fbs.
+Proof. exact flags_status_out_of_range_proof. Qed.
+Print Assumptions flags_status_out_of_range.
+
+(* all three forms of a bad percent escape (non-hex after %, raw byte that needs escaping, cut-off escape) *)
+Theorem flags_bad_percent : forall unmarshal h m tl, hget h k_message = m :: tl -> ~ pct_wf m ->
+  exists fbs f, check_grpc_status unmarshal h = Done fbs /\ In f fbs /\
+                (f = MsgHex \/ f = MsgRaw \/ f = MsgIncomplete).
+Proof. exact flags_bad_percent_proof. Qed.
+Print Assumptions flags_bad_percent.
+
+Theorem flags_message_with_ok_status : forall unmarshal h s m tl,
+  hget h k_status = [s] -> atoi s = Some 0%Z -> hget h k_message = m :: tl -> m <> [] ->
+  exists fbs, check_grpc_status unmarshal h = Done fbs /\ In MsgWithOk fbs.
+Proof. exact flags_message_with_ok_status_proof. Qed.
+Print Assumptions flags_message_with_ok_status.
+
+Theorem flags_bad_base64 : forall unmarshal h d tl, hget h k_details = d :: tl ->
+  b64_decode_raw d = None -> b64_decode_std d = None ->
+  exists fbs, check_grpc_status unmarshal h = Done fbs /\ In DetB64 fbs.
+Proof. exact flags_bad_base64_proof. Qed.
+Print Assumptions flags_bad_base64.
+
+Theorem flags_padded_base64 : forall unmarshal h d tl data, hget h k_details = d :: tl ->
+  b64_decode_raw d = None -> b64_decode_std d = Some data ->
+  exists fbs, check_grpc_status unmarshal h = Done fbs /\ In DetPadded fbs.
+Proof. exact flags_padded_base64_proof. Qed.
+Print Assumptions flags_padded_base64.
+
+Theorem flags_unparsable_details : forall unmarshal h d tl data, hget h k_details = d :: tl ->
+  b64_decode_raw d = Some data -> unmarshal data = UBad ->
+  exists fbs, check_grpc_status unmarshal h = Done fbs /\ In DetProto fbs.
+Proof. exact flags_unparsable_details_proof. Qed.
+Print Assumptions flags_unparsable_details.
+
+Theorem flags_status_disagreement : forall unmarshal h s c d tl data pc pm nd,
+  hget h k_status = [s] -> atoi s = Some c -> hget h k_details = d :: tl ->
+  b64_decode_raw d = Some data -> unmarshal data = UOk pc pm nd -> pc <> to_i32 c ->
+  exists fbs, check_grpc_status unmarshal h = Done fbs /\ In DetCode fbs.
+Proof. exact flags_status_disagreement_proof. Qed.
+Print Assumptions flags_status_disagreement.
+
+Theorem flags_message_disagreement : forall unmarshal h m mtl msg d tl data pc pm nd,
+  hget h k_message = m :: mtl -> percent_decode m = Some msg -> hget h k_details = d :: tl ->
+  b64_decode_raw d = Some data -> unmarshal data = UOk pc pm nd -> pm <> msg ->
+  exists fbs, check_grpc_status unmarshal h = Done fbs /\ In DetMsg fbs.
+Proof. exact flags_message_disagreement_proof. Qed.
+Print Assumptions flags_message_disagreement.
+
+Theorem flags_ok_with_details : forall unmarshal h d tl data pm nd,
+  hget h k_details = d :: tl -> b64_decode_raw d = Some data -> unmarshal data = UOk 0%Z pm (S nd) ->
+  exists fbs, check_grpc_status unmarshal h = Done fbs /\ In DetOkDetails fbs.
+Proof. exact flags_ok_with_details_proof. Qed.
+Print Assumptions flags_ok_with_details.
+
+(* the trailer block: a "line" is a piece of the LF split other than the last one *)
+Theorem flags_lf_line_ending : forall content l1 l l2,
+  split_on 10 content = l1 ++ l :: l2 -> l2 <> [] -> ends_cr l = false ->
+  exists fbs m, examine_grpc_end_stream content = Done (fbs, m) /\ In EosLF fbs.
+Proof. exact flags_lf_line_ending_proof. Qed.
+Print Assumptions flags_lf_line_ending.
+
+Theorem flags_upper_case_key : forall content l1 l2 key v,
+  split_on 10 content = l1 ++ ((key ++ 58 :: v) ++ [13]) :: l2 -> l2 <> [] ->
+  ~ In 58 key -> starts_ws key = false -> not_lower key = true ->
+  exists fbs m, examine_grpc_end_stream content = Done (fbs, m) /\ In EosUpper fbs.
+Proof. exact flags_upper_case_key_proof. Qed.
+Print Assumptions flags_upper_case_key.
+
+Theorem flags_invalid_field_name : forall content l1 l2 key v,
+  split_on 10 content = l1 ++ ((key ++ 58 :: v) ++ [13]) :: l2 -> l2 <> [] ->
+  ~ In 58 key -> starts_ws key = false -> valid_field_name key = false ->
+  exists fbs m, examine_grpc_end_stream content = Done (fbs, m) /\ In EosName fbs.
+Proof. exact flags_invalid_field_name_proof. Qed.
+Print Assumptions flags_invalid_field_name.
+
+Theorem flags_invalid_field_value : forall content l1 l2 key v,
+  split_on 10 content = l1 ++ ((key ++ 58 :: v) ++ [13]) :: l2 -> l2 <> [] ->
+  ~ In 58 key -> starts_ws key = false -> valid_field_value (trim_ws v) = false ->
+  exists fbs m, examine_grpc_end_stream content = Done (fbs, m) /\ In EosValue fbs.
+Proof. exact flags_invalid_field_value_proof. Qed.
+Print Assumptions flags_invalid_field_value.
+
+Theorem flags_http_trailers_outside_grpc : forall unmarshal w,
+  w_ctype w <> bs "application/grpc" -> has_prefix (bs "application/grpc+") (w_ctype w) = false ->
+  w_trailers w <> [] ->
+  exists fbs, examine_wire unmarshal w = Done fbs /\ In HttpTrailers fbs.
+Proof. exact flags_http_trailers_outside_grpc_proof. Qed.
+Print Assumptions flags_http_trailers_outside_grpc.
+
+(* Connect JSON *)
+Theorem flags_missing_code : forall ms, ~ In (bs "code") (map fst ms) ->
+  examine_connect_error (Some (JObj ms)) <> [].
+Proof. exact flags_missing_code_proof. Qed.
+Print Assumptions flags_missing_code.
+
+Theorem flags_bad_code : forall ms v, In (bs "code", v) ms ->
+  (forall s, v = JStr s -> ~ In s c13_code_names) ->
+  examine_connect_error (Some (JObj ms)) <> [].
+Proof. exact flags_bad_code_proof. Qed.
+Print Assumptions flags_bad_code.
+
+Theorem flags_unknown_key : forall ms k v, In (k, v) ms ->
+  k <> bs "code" -> k <> bs "message" -> k <> bs "details" ->
+  examine_connect_error (Some (JObj ms)) <> [].
+Proof. exact flags_unknown_key_proof. Qed.
+Print Assumptions flags_unknown_key.
+
+Theorem flags_duplicate_key : forall ms, ~ NoDup (map fst ms) ->
+  examine_connect_error (Some (JObj ms)) <> [] /\ examine_connect_end_stream (Some (JObj ms)) <> [].
+Proof. exact flags_duplicate_key_proof. Qed.
+Print Assumptions flags_duplicate_key.
+
+(* syntax errors (None), null, and anything that is not an object *)
+Theorem flags_not_an_object : forall t, (forall ms, t <> Some (JObj ms)) ->
+  examine_connect_error t <> [] /\ examine_connect_end_stream t <> [].
+Proof. exact flags_not_an_object_proof. Qed.
+Print Assumptions flags_not_an_object.
+
+(* ---------------- (3) totality: no Crash ---------------- *)
+Theorem examine_total : forall content, exists fbs m, examine_grpc_end_stream content = Done (fbs, m).
+Proof. exact examine_total_proof. Qed.
+Print Assumptions examine_total.
+
+Theorem check_grpc_status_total : forall unmarshal h, exists fbs, check_grpc_status unmarshal h = Done fbs.
+Proof. exact check_grpc_status_total_proof. Qed.
+Print Assumptions check_grpc_status_total.
+
+Theorem examine_wire_total : forall unmarshal w, exists fbs, examine_wire unmarshal w = Done fbs.
+Proof. exact examine_wire_total_proof. Qed.
+Print Assumptions examine_wire_total.
+
+Theorem encoders_total : forall marshal code msg details trailers, Forall is_byte msg ->
+  (exists e, percent_encode msg = Done e) /\
+  (exists st, grpc_status_trailers marshal code msg details = Done st) /\
+  (exists blk, grpc_web_end_stream marshal code msg details trailers = Done blk).
+Proof. exact encoders_total_proof. Qed.
+Print Assumptions encoders_total.
+
+(* ---- non-vacuity: hypotheses are inhabited, both sides occur ---- *)
+Example ex_wf_meta : wf_meta [(bs "X-Custom", [bs "v 1"; bs ""]); (bs "y-bin", [bs "AAEC"])].
+Proof.
+  assert (T : forall l, forallb (fun c => existsb (N.eqb c)
+                (bs "!#$%&'*+-.^_`|~0123456789abcdefghijklmnopqrstuvwxyzABCDEFGHIJKLMNOPQRSTUVWXYZ")) l = true -> Forall tchar l).
+  { intros l H. apply Forall_forall. intros c Hc. rewrite forallb_forall in H. specialize (H c Hc).
+    apply existsb_exists in H as (x & Hx & E). apply N.eqb_eq in E. subst. exact Hx. }
+  assert (V : forall l, forallb (fun c => (c =? 9) || ((32 <=? c) && negb (c =? 127))) l = true -> Forall vchar l).
+  { intros l H. apply Forall_forall. intros c Hc. rewrite forallb_forall in H. specialize (H c Hc).
+    apply orb_true_iff in H as [H|H]; [left; apply N.eqb_eq, H|].
+    apply andb_true_iff in H as [H1 H2]. right. split; [apply N.leb_le, H1|].
+    apply negb_true_iff in H2. apply N.eqb_neq, H2. }
+  unfold wf_meta. apply Forall_cons; [|apply Forall_cons; [|apply Forall_nil]];
+    (split; [apply T; vm_compute; reflexivity|
+     split; [cbn; intros [H|[H|[H|[]]]]; discriminate H|
+             repeat (apply Forall_cons; [apply V; vm_compute; reflexivity|]); apply Forall_nil]]).
+Qed.
+Example ex_roundtrip_inhabited :
+  proto_roundtrip (fun c m ds => Some (Z.to_N c :: m)) (fun d => match d with c :: m => UOk (Z.of_N c) m 0 | [] => UBad end)
+  -> True.
+Proof. trivial. Qed.
+Example ex_block_silent :
+  examine_grpc_end_stream (bs "grpc-status: 3" ++ [13; 10] ++ bs "grpc-message: %20a%20" ++ [13; 10] ++ bs "x-t:  v " ++ [13; 10])
+  = Done ([], [(bs "Grpc-Status", [bs "3"]); (bs "Grpc-Message", [bs "%20a%20"]); (bs "X-T", [bs "v"])]).
+Proof. vm_compute. reflexivity. Qed.
+Example ex_trailer_message : trailer_message (bs " a ") = Done (bs "%20a%20") /\ percent_encode (bs " a ") = Done (bs " a ").
+Proof. vm_compute. auto. Qed.
+Example ex_block_malformed :
+  exists m, examine_grpc_end_stream (bs "Grpc-Status: 3" ++ [10] ++ bs "bad name: x" ++ [13; 10] ++ bs "noend") =
+  Done ([EosUpper; EosName; EosNoColon; EosLF; EosNoCRLF], m).
+Proof. eexists. vm_compute. reflexivity. Qed.
+Example ex_pct : pct_wf (bs "a%2Fb") /\ ~ pct_wf (bs "a%2") /\ ~ pct_wf (bs "%zz") /\ ~ pct_wf [233].
+Proof.
+  repeat split; rewrite <- scan_iff; vm_compute; congruence.
+Qed.
+Example ex_atoi : atoi (bs "abc") = None /\ atoi (bs "") = None /\ atoi (bs "17") = Some 17%Z /\ atoi (bs "-1") = Some (-1)%Z
+                  /\ atoi (bs "9223372036854775808") = None.
+Proof. vm_compute. auto 10. Qed.
+Example ex_b64 : b64_decode_raw (bs "QQ==") = None /\ b64_decode_std (bs "QQ==") = Some [65] /\ b64_decode_raw (bs "QQ") = Some [65]
+                 /\ b64_decode_raw (bs "Q") = None /\ b64_decode_std (bs "!!!!") = None.
+Proof. vm_compute. auto 10. Qed.
+Example ex_cerr_silent :
+  examine_connect_error (Some (render_connect_error (bs "not_found") (Some (bs "m")) [(bs "a.B", [1; 2; 3])])) = [].
+Proof. vm_compute. reflexivity. Qed.
+Example ex_cerr_flagged :
+  examine_connect_error (Some (JObj [(bs "Code", JStr (bs "not_found"))])) = [JKey 0; CeNoCode] /\
+  examine_connect_error (Some (JObj [(bs "code", JStr (bs "not_found")); (bs "code", JStr (bs "internal"))])) = [JDup 0] /\
+  examine_connect_error (Some (JObj [(bs "code", JStr (bs "code_5"))])) = [CeCodeName] /\
+  examine_connect_error None = [JSyntax 0].
+Proof. vm_compute. auto. Qed.
+Example ex_code_names : length c13_code_names = 16%nat.
+Proof. reflexivity. Qed.
